@@ -46,7 +46,7 @@ class HyperWorld(World):
 
     @classmethod
     def gen_config(cls, rng, tier, faults):
-        if rng.random() < 0.3:
+        if rng.random() < 0.25:
             # the surface operators (follower pressure, penalty contact) wired into a HyperElastic subclass the way the
             # repository's examples do: see engines/hyper_surf.py
             from .hyper_surf import gen_surf_config
@@ -73,7 +73,7 @@ class HyperWorld(World):
         cfg = {
             "params": p, "mesh": mesh, "rho": float(np.round(rng.uniform(0.5, 3), 3)), "clamped": bool(rng.random() < 0.7),
             "stress": ["gonzalez", "gonzalez", "quadrature", "quadrature_fixed", "quadrature_fixed", "pointwise"][int(rng.integers(6))],
-            "nPoints": [1, 1, 2, 3, 5, 4, 6][int(rng.integers(7))],
+            "nPoints": [1, 2, 3, 5, 4, 6, 4, 6][int(rng.integers(8))],
             # non-conservative ingredients (no energy oracle then; the Newton system must still be the derivative of the
             # residual): Kelvin-Voigt viscosity and an active fibre stress
             "eta": float(np.round(rng.uniform(0.01, 1.0), 3)) if rng.random() < 0.2 else 0.0,
